@@ -223,17 +223,22 @@ def run_links(hist):
 
     viol = []
     removed_total = 0
+
+    def wf(path, data):
+        # user edits land within the same second as the recording (1 microsecond logical clock)
+        write_file(path, data, stamp_it=False)
+        stamp(path, 1000)
     with World() as w:
         root = w.mkdir("repo")
         state = State(root_dir=root, tmp_dir=w.p("tmp"))
         try:
             p = {"p1": os.path.join(root, "p1"), "p2": os.path.join(root, "p2")}
-            write_file(p["p1"], b"tracked-1")
-            write_file(os.path.join(p["p2"], "in1"), b"inner-1")
-            write_file(os.path.join(p["p2"], "in2"), b"inner-2")
+            wf(p["p1"], b"tracked-1")
+            wf(os.path.join(p["p2"], "in1"), b"inner-1")
+            wf(os.path.join(p["p2"], "in2"), b"inner-2")
             # same file name in two sub-directories (e.g. train/part-0, test/part-0)
-            write_file(os.path.join(p["p2"], "u", "part"), b"part-u")
-            write_file(os.path.join(p["p2"], "v", "part"), b"part-v")
+            wf(os.path.join(p["p2"], "u", "part"), b"part-u")
+            wf(os.path.join(p["p2"], "v", "part"), b"part-v")
             recorded = {}   # name -> modified since recording?
             for i, op in enumerate(hist):
                 k, name = op
@@ -243,20 +248,20 @@ def run_links(hist):
                         recorded[name] = False
                 elif k == "mod":
                     if os.path.exists(p["p1"]):
-                        write_file(p["p1"], b"user-modified-%d" % i)
+                        wf(p["p1"], b"user-modified-%d" % i)
                         if "p1" in recorded:
                             recorded["p1"] = True
                 elif k == "touch":
                     if os.path.exists(p["p1"]):
-                        stamp(p["p1"])
+                        stamp(p["p1"], 1000)
                         if "p1" in recorded:
                             recorded["p1"] = True
                 elif k == "repl":
                     if os.path.exists(p["p1"]):
                         tmp = p["p1"] + ".new"
-                        write_file(tmp, b"tracked-1")
+                        wf(tmp, b"tracked-1")
                         os.rename(tmp, p["p1"])
-                        stamp(p["p1"])
+                        stamp(p["p1"], 1000)
                         if "p1" in recorded:
                             recorded["p1"] = True
                 elif k == "rm":
@@ -265,18 +270,18 @@ def run_links(hist):
                 elif k == "edit-inner":
                     f = os.path.join(p["p2"], "in1")
                     if os.path.exists(f):
-                        write_file(f, b"inner-edited-%d" % i)
+                        wf(f, b"inner-edited-%d" % i)
                         if "p2" in recorded:
                             recorded["p2"] = True
                 elif k in ("edit-inner-u", "edit-inner-v"):
                     f = os.path.join(p["p2"], k[-1], "part")
                     if os.path.exists(f):
-                        write_file(f, b"part-edited-%d" % i)
+                        wf(f, b"part-edited-%d" % i)
                         if "p2" in recorded:
                             recorded["p2"] = True
                 elif k == "add-inner":
                     if os.path.isdir(p["p2"]):
-                        write_file(os.path.join(p["p2"], f"new{i}"), b"user-added")
+                        wf(os.path.join(p["p2"], f"new{i}"), b"user-added")
                         if "p2" in recorded:
                             recorded["p2"] = True
                 elif k == "rename-inner":
